@@ -531,6 +531,9 @@ var vEnumPool = []vSpecEntry{
 	{P: "d/n", Typ: "bind", Origin: "", V: 1},
 	{P: "a/b", Typ: "bind", Origin: "", V: 1},
 	{P: "h/x", Typ: "ensure-dir", Origin: "", V: 1},
+	{P: "a/b/n", Typ: "bind", Origin: "overname", V: 1},
+	{P: "h/x/y", Typ: "ensure-dir", Origin: "", V: 1},
+	{P: "h/x", Typ: "bind", Origin: "", V: 1},
 }
 
 func vDistinctDirs(es []vSpecEntry) bool {
@@ -569,6 +572,18 @@ func vEnumerate(k, poolSize int, emit func(vCase)) {
 		}
 		if !vDistinctDirs(es) {
 			continue
+		}
+		if os.Getenv("VERIF_ENUM_RELATED") == "1" {
+			top := strings.SplitN(es[0].P, "/", 2)[0]
+			same := true
+			for _, e := range es {
+				if strings.SplitN(e.P, "/", 2)[0] != top {
+					same = false
+				}
+			}
+			if !same {
+				continue
+			}
 		}
 		nsub := 1 << uint(k)
 		sub := func(mask int) []vSpecEntry {
